@@ -184,12 +184,16 @@ def ArrayVal.fromBody (ops : NumOps) (dataShape : List Nat) (body : List (String
       pure (t, u)
     | _ => throw (.error "no data")
   let rank := dataShape.length
-  if rank == 0 then throw (.error "dim-1 not found")       -- group["dim-1"]
-  let lastDim ← match alookup (autoName "dim" (rank - 1)) body with
-    | some o => pure o
+  -- 0-dimensional data has no dim vectors at all
+  let lastDim : Option Obj ← if rank == 0 then pure none else
+    match alookup (autoName "dim" (rank - 1)) body with
+    | some o => pure (some o)
     | none => throw (.error "last dim not found")
-  let lastName ← strAttr lastDim "name"
-  let isStack := lastName == "_labels_"
+  let isStack ← match lastDim with
+    | none => pure false
+    | some o => do
+      let lastName ← strAttr o "name"
+      pure (lastName == "_labels_")
   let normal := if isStack then rank - 1 else rank
   let triples ← (List.range normal).mapM (fun n =>
     match alookup (autoName "dim" n) body with
@@ -200,7 +204,7 @@ def ArrayVal.fromBody (ops : NumOps) (dataShape : List Nat) (body : List (String
     | _ => throw (.error "dim not found"))
   let lab ← if isStack then
       match lastDim with
-      | .dataset _ (.strs ls) => pure (LabelArg.given ls)
+      | some (.dataset _ (.strs ls)) => pure (LabelArg.given ls)
       | _ => throw (.error "labels are not strings")
     else pure LabelArg.none
   mkArray ops tok dataShape units (some (triples.map (·.1))) (some (triples.map (·.2.2))) (some (triples.map (·.2.1))) lab
